@@ -12,7 +12,7 @@ RULE = ('cases = (start, end) in {zbl, bornmayer, buck, morse, coul+buck, polyno
         '(detach, attach) lattice incl. integer-typed knots x r_min (3 interior points, buck4 type) x three constructions {Python classes, '
         'spline() modifier with > / >= markers, as.buck4 vs its documented long form}; each spline probed at 25+ separations (knots, '
         'nextafter neighbours, +-1e-6, interior lattice, outside); every case executed; non-trivial = every case (all end potentials curved)')
-RULE += '; every spline also with its FIRST part carrying its own lower bound (>= and >, probed below / at / above it); as.buck4 with C = 0 and A = 0; detach / attach points at negative arguments (a function written in x = r - r_e and moved into place with trans()), exp_spline and buck4_spline, value and derivatives against the documented construction'
+RULE += '; every spline also with its FIRST part carrying its own lower bound (>= and >, probed below / at / above it); as.buck4 with C = 0 and A = 0; detach / attach points at negative arguments (a function written in x = r - r_e and moved into place with trans()), exp_spline and buck4_spline, value and derivatives against the documented construction; 13 as.buck4 parametrisations that differ by 1e-7 relative in one parameter, built one after another in one process'
 ASSUMPTIONS = [
     'the advertised shapes: exp(sum B_i r^i) + C from the public splineCoefficients; 5th-order polynomial below r_min, 3rd-order above',
     'continuity is judged on the advertised shape evaluated from splineCoefficients against exact jets of the end potentials; allowance = backward-error bound of the '
@@ -60,6 +60,15 @@ def cases(tier):
     for A, rho, C in ((1388.773, 0.3623, 175.0), (1000.0, 0.3, 30.0), (500, 1, 60), (1388.773, 0.3623, 0), (800.0, 0.29, 0.0), (0, 0.3, 30.0)):
         for rd, rm, ra in ((1.2, 2.1, 2.6), (1, 2, 3), (0.9, 1.5, 3.1), (1.5, 1.9, 2.2), (1.0, 1.3, 3.0)):
             out.append(dict(buck4=[A, rho, C, rd, rm, ra]))
+    # several as.buck4 parametrisations in ONE process that agree to 6-7 significant digits (fitting loops, finite-difference sensitivities)
+    for base in ((1388.773, 0.3623, 175.0, 1.2, 2.1, 2.6), (1000.0, 0.3, 30.0, 1.0, 2.0, 3.0)):
+        seq = [list(base)]
+        for i in range(6):
+            for rel in (1e-7, -3e-7):
+                v = list(base)
+                v[i] = v[i] * (1.0 + rel)
+                seq.append(v)
+        out.append(dict(buck4_seq=seq))
     return out
 
 
@@ -248,6 +257,17 @@ def run_case(case):
     viol = []
     if case.get('signed'):
         return run_signed(case)
+    if 'buck4_seq' in case:
+        tot = dict(outcome='ok:buck4-seq', nontrivial=True, evals=0, violations=[])
+        for vec in case['buck4_seq']:
+            res = run_buck4(dict(buck4=vec))
+            tot['evals'] += res['evals']
+            if res['violations']:
+                for v in res['violations']:
+                    v['msg'] = 'after %d nearly equal as.buck4 parametrisations in this process: %s' % (case['buck4_seq'].index(vec), v['msg'])
+                tot.update(outcome='violation', violations=res['violations'])
+                break
+        return tot
     if 'buck4' in case:
         return run_buck4(case)
     s_it, e_it = item_of(case['start']), item_of(case['end'])
